@@ -14,11 +14,22 @@ import (
 // buffer size and flush mode, then CloseSend. When MsgSend returns nil with automatic
 // flushing the transport already holds every frame of that message; with manual flushing
 // the same holds after RawFlush. The log decodes to exactly the messages, in order.
-func VerifH_SendPath() {
+func VerifH_SendPath() { sendPath(false) }
+
+// VerifH_SendPathWideSizes: the same with every writer buffer size in [1,10] (and 64), so
+// that each combination of "a frame is buffered" and "the next frame does / does not fit
+// next to it / alone" occurs.
+func VerifH_SendPathWideSizes() { sendPath(true) }
+
+func sendPath(wide bool) {
 	sid := uint64(3)
 	tr := &recTransport{}
 	wsize := vrt.Int("wsize")
-	vrt.Assume(wsize == 1 || wsize == 8 || wsize == 64)
+	if wide {
+		vrt.Assume((wsize >= 1 && wsize <= 10) || wsize == 64)
+	} else {
+		vrt.Assume(wsize == 1 || wsize == 8 || wsize == 64)
+	}
 	split := vrt.Int("split")
 	vrt.Assume(split >= -1 && split <= 3)
 	manual := vrt.Bool("manual")
@@ -47,7 +58,7 @@ func VerifH_SendPath() {
 }
 
 // VerifH_RecvRendezvous: the producer does what the manager's reader does (one reused
-// buffer: fill, HandlePacket, refill, HandlePacket, then CloseSend); the consumer receives
+// buffer: fill, HandlePacket, refill, HandlePacket, then CloseSend or Close); the consumer receives
 // three times. The consumer must obtain m1, m2, then end-of-stream, with the bytes of the
 // time of the hand-over (the lent buffer is not reused while held).
 func VerifH_RecvRendezvous() {
@@ -57,6 +68,7 @@ func VerifH_RecvRendezvous() {
 	m1 := vrt.BytesN("m1", 2)
 	m2 := vrt.BytesN("m2", 2)
 	raw := vrt.Bool("rawRecv")
+	endClose := vrt.Bool("endWithClose")
 	var g1, g2 []byte
 	var e1, e2, e3 error
 	cdone, pdone := false, false
@@ -67,7 +79,11 @@ func VerifH_RecvRendezvous() {
 		copy(buf, m2)
 		_ = s.HandlePacket(drpcwire.Packet{ID: drpcwire.ID{Stream: sid, Message: 2}, Kind: drpcwire.KindMessage, Data: buf})
 		buf[0], buf[1] = 0xAA, 0xBB
-		_ = s.HandlePacket(drpcwire.Packet{ID: drpcwire.ID{Stream: sid, Message: 3}, Kind: drpcwire.KindCloseSend})
+		endKind := drpcwire.KindCloseSend
+		if endClose { // the remote closes the stream outright: a receiver blocked at that moment still sees end-of-stream
+			endKind = drpcwire.KindClose
+		}
+		_ = s.HandlePacket(drpcwire.Packet{ID: drpcwire.ID{Stream: sid, Message: 3}, Kind: endKind})
 		pdone = true
 	}()
 	go func() {
